@@ -139,7 +139,8 @@ class GWGEBV(ValueFamily):
         exp = R.gwgebv(fx.counts, u, fa, opt["alpha"])
         extra = {} if self.weighted_only else {"alpha": opt["alpha"]}
         if fac == "from_numpy":
-            prob = cls.from_numpy(Z_a=A(fx.counts), u_a=A(u), fafreq=A([[float(f) for f in r] for r in fa]), **extra, **common)
+            prob = cls.from_numpy(Z_a=fx.arg("Z_a", A(fx.counts)), u_a=fx.arg("u_a", A(u)),
+                                  fafreq=fx.arg("fafreq", A([[float(f) for f in r] for r in fa])), **extra, **common)
         else:
             gm = fx.pgmat() if opt["phased"] else fx.gmat()
             prob = cls.from_gmat_algpmod(gmat=gm, algpmod=fx.gpmod(u), **extra, **common)
@@ -231,7 +232,7 @@ class UC(MateValueFamily):
         if fac == "from_pgmat_gpmod_xmap":
             # a user supplied cross map: reversed order, parents listed high-to-low (ordered crosses)
             want = [tuple(reversed(r)) for r in reversed(R.cross_map(fx.n, opt["nparent"], True))]
-            args["xmap"] = A(want, "int64")
+            args["xmap"] = fx.arg("xmap", A(want, "int64"))
         prob = getattr(cls, fac)(**args, **common)
         rows = _xmap_rows(prob)
         if fac == "from_pgmat_gpmod_xmap":
@@ -413,7 +414,7 @@ class L2(KinFamily):
             return None, "weighted-relationship-not-positive-definite", None
         w, tg = self._targets(fx)
         prob = cls.from_gmat(gmat=fx.pgmat() if opt["phased"] else fx.gmat(), cmatfcty=_cmatfcty("weighted"),
-                             mkrwt=A(w), afreq=A(tg), **common)
+                             mkrwt=fx.arg("mkrwt", A(w)), afreq=fx.arg("afreq", A(tg)), **common)
         return prob, [Exp("C", Ks, "chol3")], {"Ks": Ks, "N": fx.n}
 
 
@@ -447,8 +448,8 @@ class L1(Family):
 
     def build_factory(self, cls, enc, fx, fac, opt, common):
         d = self.data(fx, {})
-        prob = cls.from_numpy(mkrwt=A(d["mkrwt"]), tafreq=A([[float(v) for v in r] for r in d["tafreq"]]),
-                              tfreq=A(d["tfreq"]), **common)
+        prob = cls.from_numpy(mkrwt=fx.arg("mkrwt", A(d["mkrwt"])), tafreq=fx.arg("tafreq", A([[float(v) for v in r] for r in d["tafreq"]])),
+                              tfreq=fx.arg("tfreq", A(d["tfreq"])), **common)
         return prob, [Exp("V", self.V(d))], d
 
 
@@ -584,7 +585,7 @@ class AlleleFamily(Family):
             target = lambda u_a: (u_a > 0.0).astype(float)
             d = dict(d, tfreq=[[1.0 if v > 0 else 0.0 for v in r] for r in fx.u])
         else:
-            weight, target = A(d["mkrwt"]), A(d["tfreq"])
+            weight, target = fx.arg("weight", A(d["mkrwt"])), fx.arg("target", A(d["tfreq"]))
         prob = cls.from_gmat_gpmod(gmat=fx.pgmat() if opt["phased"] else fx.gmat(), weight=weight, target=target,
                                    gpmod=fx.gpmod(), **common)
         return prob, [Exp("geno", d["geno"], "exact"), Exp("ploidy", 2, "exact"), Exp("mkrwt", d["mkrwt"]), Exp("tfreq", d["tfreq"])], d
